@@ -198,7 +198,40 @@ def cmd_sweep(seeds, out):
     print('sweep: %d runs, %d caught (%d by the seeded search itself)' % (n, k, ks))
 
 
+def cmd_sweep_table(path):
+    """Markdown summary of a sweep file (DESIGN.md section 9.4)."""
+    res = json.load(open(path))
+    seeds = sorted({s for v in res.values() for s in v}, key=int)
+    by_design = {}
+    for sid in sorted(res):
+        m = json.load(open(os.path.join(SEEDED, sid, 'meta.json')))
+        own = [c for c in m.get('checks', []) if c['property'] == m['property']]
+        by_design[sid] = bool(own) and not own[-1]['caught']
+    n = k = 0
+    rows = []
+    for sid in sorted(res):
+        cells = []
+        for s_ in seeds:
+            r = res[sid].get(s_)
+            if r is None:
+                cells.append('–')
+                continue
+            n += 1
+            k += 1 if r['caught'] else 0
+            cells.append('caught' if r['caught'] else 'MISSED')
+        if not all(c == 'caught' for c in cells):
+            rows.append('| %s | %s | %s |' % (sid, ' | '.join(cells), 'not caught at seed 0 either (see the list above)' if by_design[sid] else '**seed-dependent**'))
+    print('%d runs (%d changes x seeds %s): %d caught.' % (n, len(res), ', '.join(seeds), k))
+    print()
+    print('| id | ' + ' | '.join('seed ' + s_ for s_ in seeds) + ' | note |')
+    print('|----|' + '|'.join(['---'] * len(seeds)) + '|------|')
+    for r in rows:
+        print(r)
+
+
 def main():
+    if sys.argv[1] == 'sweep-table':
+        return cmd_sweep_table(sys.argv[2])
     if sys.argv[1] == 'sweep':
         seeds = [int(x) for x in sys.argv[sys.argv.index('--seeds') + 1].split(',')]
         return cmd_sweep(seeds, sys.argv[sys.argv.index('--out') + 1])
